@@ -16,6 +16,10 @@ CONSTANTS
   Cap = 0
   Wins = {}
   OwnStorage = TRUE
+  Forms = {"ln"}
+  Shapes = {"plain"}
+  WholeMsg = TRUE
+  SignedCid = TRUE
   Sink <- KeepAll
 INVARIANTS WholeLines
 CHECK_DEADLOCK FALSE
